@@ -85,7 +85,7 @@ def main():
         r["valid_seed"] = bool(valid)
         print(json.dumps(r, indent=1))
         if valid:
-            dst = os.path.join(VERIF, "seeded", mid)
+            dst = os.path.join(VERIF, "seeded", mid + os.environ.get("SEED_SUFFIX", ""))
             os.makedirs(dst, exist_ok=True)
             for f in ("patch.diff", "demo.py"):
                 shutil.copy(os.path.join(wt, "out", mid, f), dst)
